@@ -769,3 +769,117 @@ def no_mutation_through_alias(qualname, readonly_roots=None):
                        "`%s` is bound to `%s` at line %d (no copy) and updated in place at line %d: the update changes the object it came from" % (name, src, line, s.lineno)))
     out.append(_ob(qualname, "no-inplace-update-through-aliases:%d aliases" % len(alias), True, None, "%d local aliases of object attributes checked" % len(alias)))
     return out
+
+
+MUTATORS = ("append", "extend", "insert", "remove", "pop", "popitem", "update", "clear", "sort", "reverse", "fill", "setdefault", "rename", "remove_before", "remove_after", "remove_between",
+            "insert_pop", "remove_pop", "add_pop", "rename_pop", "load_calibration", "set_initialization", "scale_alloc", "smooth", "__setitem__", "resize", "put", "itemset")
+
+
+def inputs_only_read(qualname, roots):
+    """the function never writes through its inputs `roots` (parameter names): no assignment / deletion whose target is an attribute or
+    element reached from a root or from a local alias of something reached from a root, and no call of a known mutating method on
+    such an object.  An alias is a local name whose nearest enclosing / preceding binding (assignment, for-target, comprehension
+    target) is an attribute / element / get_*() / values() / items() chain starting at a root or at another alias; the results of
+    other calls -- copy(), dcp(), interpolate(), constructors, arithmetic -- are new objects.  A root rebound to a copy of itself by
+    a top-level statement (`x = sc.dcp(x)`) is no longer a root."""
+    fi = source.lookup(qualname)
+    params = {a.arg for a in fi.node.args.args + fi.node.args.kwonlyargs}
+    roots = set(r for r in roots if r in params)
+    out = []
+    if not roots:
+        return out
+    for st in fi.body():
+        if isinstance(st, ast.Assign) and len(st.targets) == 1 and isinstance(st.targets[0], ast.Name) and st.targets[0].id in roots and isinstance(st.value, ast.Call):
+            f = st.value.func
+            if (f.attr if isinstance(f, ast.Attribute) else getattr(f, "id", "")) in ("dcp", "deepcopy", "copy"):
+                roots.discard(st.targets[0].id)
+    parent = {}
+    for node in ast.walk(fi.node):
+        for child in ast.iter_child_nodes(node):
+            parent[child] = node
+
+    def chain_root(e):
+        """(bottom expression of an attribute / element / accessor chain, whether the chain has at least one step)"""
+        steps = 0
+        while True:
+            if isinstance(e, (ast.Attribute, ast.Subscript)):
+                e, steps = e.value, steps + 1
+            elif isinstance(e, ast.Call) and isinstance(e.func, ast.Attribute) and (e.func.attr.startswith("get_") or e.func.attr in ("values", "items", "keys", "all_pars")):
+                e, steps = e.func.value, steps + 1
+            elif isinstance(e, ast.Call) and isinstance(e.func, ast.Name) and e.func.id in ("enumerate", "zip", "list", "sorted", "reversed", "tuple") and e.args:
+                return [pair for a in e.args for pair in chain_root(a)]
+            else:
+                return [(e, steps)]
+
+    def binding(name, at):
+        """the expression the name is bound from at statement `at` (nearest preceding assignment in an enclosing block, or the
+        iterable of an enclosing for / comprehension that binds it); ('param',) for a parameter; None if unknown"""
+        node = at
+        while node in parent:
+            par = parent[node]
+            if isinstance(par, (ast.For, ast.comprehension)) and node is not par.iter and any(isinstance(x, ast.Name) and x.id == name for x in ast.walk(par.target)):
+                return ("iter", par.iter, par)
+            if isinstance(par, (ast.ListComp, ast.SetComp, ast.DictComp, ast.GeneratorExp)):
+                for g in par.generators:
+                    if any(isinstance(x, ast.Name) and x.id == name for x in ast.walk(g.target)):
+                        return ("iter", g.iter, par)
+            for field in ("body", "orelse", "finalbody", "handlers"):
+                block = getattr(par, field, None)
+                if isinstance(block, list) and node in block:
+                    for st in reversed(block[: block.index(node)]):
+                        if isinstance(st, ast.Assign) and any(isinstance(t, ast.Name) and t.id == name for t in st.targets):
+                            return ("value", st.value, st)
+                        if isinstance(st, ast.Assign) and any(isinstance(t, (ast.Tuple, ast.List)) and any(isinstance(x, ast.Name) and x.id == name for x in t.elts) for t in st.targets):
+                            return ("iter", st.value, st)
+            if isinstance(par, (ast.FunctionDef, ast.AsyncFunctionDef)):
+                break
+            node = par
+        return ("param",) if name in params else None
+
+    def reaches_input(e, at, depth=0):
+        """does the object denoted by expression `e` (evaluated at statement `at`) belong to an input?"""
+        if depth > 8:
+            return False
+        for bottom, steps in chain_root(e):
+            if not isinstance(bottom, ast.Name):
+                continue
+            b = binding(bottom.id, at)
+            if b is None:
+                continue
+            if b[0] == "param":
+                if bottom.id in roots:
+                    return True
+                continue
+            if b[0] == "value":
+                # x = <chain from an input>: x is (part of) the input; x = f(...): a new object
+                if any(isinstance(bb, ast.Name) or st > 0 for bb, st in chain_root(b[1])) and reaches_input(b[1], b[2], depth + 1):
+                    return True
+            else:
+                if reaches_input(b[1], b[2], depth + 1):
+                    return True
+        return False
+
+    def stmt_of(node):
+        while node in parent and not isinstance(node, ast.stmt):
+            node = parent[node]
+        return node
+
+    n = 0
+    for s in ast.walk(fi.node):
+        targets = []
+        if isinstance(s, ast.Assign):
+            targets = s.targets
+        elif isinstance(s, (ast.AugAssign, ast.AnnAssign)):
+            targets = [s.target]
+        elif isinstance(s, ast.Delete):
+            targets = s.targets
+        for t in targets:
+            for x in ([t] if not isinstance(t, (ast.Tuple, ast.List)) else t.elts):
+                if isinstance(x, (ast.Attribute, ast.Subscript)) and reaches_input(x.value, s):
+                    n += 1
+                    out.append(_ob(qualname, "writes-through-input@L%d" % s.lineno, False, s.lineno, "`%s` is assigned at line %d and is reached from the input(s) %s: the caller's object is modified" % (ast.unparse(x), s.lineno, sorted(roots))))
+        if isinstance(s, ast.Call) and isinstance(s.func, ast.Attribute) and s.func.attr in MUTATORS and reaches_input(s.func.value, stmt_of(s)):
+            n += 1
+            out.append(_ob(qualname, "mutating-call-on-input:%s@L%d" % (s.func.attr, s.lineno), False, s.lineno, "`%s` at line %d mutates an object reached from the input(s) %s" % (ast.unparse(s)[:80], s.lineno, sorted(roots))))
+    out.append(_ob(qualname, "inputs-only-read:%s" % ",".join(sorted(roots)), True, None, "no write through %s" % sorted(roots)))
+    return out
